@@ -69,8 +69,13 @@ def gen_case(rng, tier, *, semi=False, metrics=None, force_tie_free=False, allow
     for t in range(m):
         if rng.random() < 0.25:
             Q[t] = X[int(rng.integers(0, len(X)))]
+    if rng.random() < 0.1:
+        # class identifiers need not be 0..K-1 for the (semi-)supervised models: an injective relabelling to arbitrary integers
+        ids = rng.choice(50, size=int(Y.max()) + 1, replace=False)
+        Y = ids[Y]
     case = {"model": "semi" if semi else "supervised", "metric": metric, "gclass": gc, "pattern": pattern,
-            "X": Xl.tolist(), "Y": Y.tolist(), "U": U.tolist(), "Q": Q.tolist(), "pre": None, "prefit": None}
+            "X": Xl.tolist(), "Y": [int(v) for v in Y], "U": U.tolist(), "Q": Q.tolist(), "pre": None, "prefit": None,
+            "kwcall": bool(rng.random() < 0.2)}
     if rng.random() < 0.15:
         # history: the SAME model object is first fitted on other data of the same shape (state kept between fits would leak)
         P = gen.to_domain(gen.make_dataset(rng, n + nU, d, "G1"), kind)
@@ -153,10 +158,16 @@ def run_case(case, with_prim_hook=True, with_heap_hooks=True):
             fu = PU
         fx, fy = PX, PY
     with hooks.patched(rec, targets):
-        if case["model"] == "semi":
-            o.fit = safe_call(o.model.fit, fx, fy, fu, None if o.I is None else o.I.copy())
+        It = None if o.I is None else o.I.copy()
+        if case.get("kwcall"):                     # the same call with every argument passed by keyword
+            if case["model"] == "semi":
+                o.fit = safe_call(o.model.fit, X_train=fx, Y_train=fy, X_unlabeled=fu, I_train=It)
+            else:
+                o.fit = safe_call(o.model.fit, X_train=fx, Y_train=fy, I_train=It)
+        elif case["model"] == "semi":
+            o.fit = safe_call(o.model.fit, fx, fy, fu, It)
         else:
-            o.fit = safe_call(o.model.fit, fx, fy, None if o.I is None else o.I.copy())
+            o.fit = safe_call(o.model.fit, fx, fy, It)
     prim = rec.of("prim")
     o.prim = prim[-1] if prim else None
     o.hook_missing = list(rec.missing)
